@@ -230,6 +230,9 @@ def runFrom (s : St) (ops : List Op) : St := ops.foldl (fun s o => (step s o).1)
 
 def run (c : Cfg) (ops : List Op) : St := runFrom (init c) ops
 
+/-- number of buffered traces whose `SendBy` is not after `D` (the backlog of deadlines `≤ D`) -/
+def backlog (s : St) (D : Int) : Nat := s.buf.countP (fun p => decide (p.2.sendBy ≤ D))
+
 /-! ## Reference implementation of `TakeExpiredTraces` over a sorted-list priority queue -/
 
 /-- keyed priority queue as a list sorted by priority; `cmp = v1.Before(v2)` -/
@@ -289,17 +292,29 @@ def Spec.step (c : Cfg) (sp : Spec) : Op → Spec
 def Spec.runFrom (c : Cfg) (sp : Spec) (ops : List Op) : Spec := ops.foldl (Spec.step c) sp
 def Spec.run (c : Cfg) (ops : List Op) : Spec := Spec.runFrom c {} ops
 
-/-- **The documented deadline**: `TraceTimeout` after the first span, `SendDelay` after the (first)
-root span if one has arrived, or the instant the span count first exceeded `SpanLimit` — whichever
-comes first. -/
-def documented (c : Cfg) (a : Arr) : Int :=
-  let d0 := a.first + c.effTimeout
+/-- the documented `TraceTimeout`: the configured value, or the documented default
+(`config.TracesConfig` struct tag) when it is left at zero -/
+def Cfg.docTimeout (c : Cfg) : Int :=
+  if c.traceTimeout = 0 then Gen.Deadline.cfgDefaultTraceTimeout else (c.traceTimeout : Int)
+
+/-- the documented `SendDelay` (documented default when zero) -/
+def Cfg.docDelay (c : Cfg) : Int :=
+  if c.sendDelay = 0 then Gen.Deadline.cfgDefaultSendDelay else (c.sendDelay : Int)
+
+/-- deadline of an arrival record under a trace timeout `tt` and a send delay `sd` -/
+def documentedWith (tt sd : Int) (a : Arr) : Int :=
+  let d0 := a.first + tt
   let d1 := match a.rootAt with
-    | some r => min d0 (r + c.effDelay)
+    | some r => min d0 (r + sd)
     | none => d0
   match a.limitAt with
   | some l => min d1 l
   | none => d1
+
+/-- **The documented deadline**: `TraceTimeout` after the first span, `SendDelay` after the (first)
+root span if one has arrived, or the instant the span count first exceeded `SpanLimit` — whichever
+comes first. -/
+def documented (c : Cfg) (a : Arr) : Int := documentedWith c.docTimeout c.docDelay a
 
 /-- the documented send reason at a tick -/
 def documentedReason (c : Cfg) (a : Arr) : Reason :=
